@@ -160,6 +160,82 @@ VARIANTS = [
     {"name": "P4 carriage returns escaped as well", "file": LLSD, "expect": "silent",
      "old": 'return super().STRING(v).replace(b"\\n", b"\\\\n")',
      "new": 'return super().STRING(v).replace(b"\\n", b"\\\\n").replace(b"\\r", b"\\\\r")'},
+    # ------------------------------------------------------------------ strengthening round
+    {"name": "R1 per-block variable list memoised by block name", "expect": "C12.R1",
+     "edits": [{"file": MSGSER, "old": "        self._message_cls = message_cls\n",
+                "new": "        self._message_cls = message_cls\n        self._llsd_vars = {}\n"},
+               {"file": MSGSER, "old": "                for tmpl_var in tmpl_block.variables:\n"
+                                       "                    if tmpl_var.type in LLSDDataPacker.SPECS:\n"
+                                       "                        yield block, tmpl_var\n",
+                "new": "                for tmpl_var in self._llsd_vars_of(tmpl_block):\n"
+                       "                    yield block, tmpl_var\n"},
+               {"file": MSGSER, "old": "    def can_handle(self,",
+                "new": "    def _llsd_vars_of(self, tb):\n"
+                       "        if tb.name not in self._llsd_vars:\n"
+                       "            self._llsd_vars[tb.name] = [v for v in tb.variables if v.type in LLSDDataPacker.SPECS]\n"
+                       "        found = self._llsd_vars[tb.name]\n"
+                       "        return found\n\n    def can_handle(self,"}]},
+    {"name": "P1 per-block variable list memoised by the block object", "expect": "silent",
+     "edits": [{"file": MSGSER, "old": "        self._message_cls = message_cls\n",
+                "new": "        self._message_cls = message_cls\n        self._llsd_vars = {}\n"},
+               {"file": MSGSER, "old": "                for tmpl_var in tmpl_block.variables:\n"
+                                       "                    if tmpl_var.type in LLSDDataPacker.SPECS:\n"
+                                       "                        yield block, tmpl_var\n",
+                "new": "                for tmpl_var in self._llsd_vars_of(tmpl_block):\n"
+                       "                    yield block, tmpl_var\n"},
+               {"file": MSGSER, "old": "    def can_handle(self,",
+                "new": "    def _llsd_vars_of(self, tb):\n"
+                       "        if tb not in self._llsd_vars:\n"
+                       "            self._llsd_vars[tb] = [v for v in tb.variables if v.type in LLSDDataPacker.SPECS]\n"
+                       "        found = self._llsd_vars[tb]\n"
+                       "        return found\n\n    def can_handle(self,"}]},
+    {"name": "P1 filter extracted into an uncached helper", "expect": "silent",
+     "edits": [{"file": MSGSER, "old": "                for tmpl_var in tmpl_block.variables:\n"
+                                       "                    if tmpl_var.type in LLSDDataPacker.SPECS:\n"
+                                       "                        yield block, tmpl_var\n",
+                "new": "                for tmpl_var in self._llsd_vars_of(tmpl_block):\n"
+                       "                    yield block, tmpl_var\n"},
+               {"file": MSGSER, "old": "    def can_handle(self,",
+                "new": "    def _llsd_vars_of(self, tb):\n"
+                       "        return tuple(v for v in tb.variables if v.type in LLSDDataPacker.SPECS)\n\n"
+                       "    def can_handle(self,"}]},
+    {"name": "P1 guard clause in _yield_vars", "file": MSGSER, "expect": "silent",
+     "old": "                    if tmpl_var.type in LLSDDataPacker.SPECS:\n                        yield block, tmpl_var\n",
+     "new": "                    if tmpl_var.type not in LLSDDataPacker.SPECS:\n                        continue\n"
+            "                    yield block, tmpl_var\n"},
+    {"name": "R1 _yield_vars yields every variable", "file": MSGSER, "expect": "C12.R1",
+     "old": "                    if tmpl_var.type in LLSDDataPacker.SPECS:\n                        yield block, tmpl_var\n",
+     "new": "                    yield block, tmpl_var\n"},
+    {"name": "R2 key header built from the unencoded key", "file": LLSD, "expect": "C12.R2",
+     "old": "            if isinstance(key, str):\n                key = key.encode(\"utf8\")\n"
+            "            map_builder.append(b'k' + struct.pack('!i', len(key)) + key)\n",
+     "new": "            head = b'k' + struct.pack('!i', len(key))\n"
+            "            raw_key = key.encode(\"utf8\") if isinstance(key, str) else key\n"
+            "            map_builder.append(head + raw_key)\n"},
+    {"name": "P2 key header bound to a local after encoding", "file": LLSD, "expect": "silent",
+     "old": "            map_builder.append(b'k' + struct.pack('!i', len(key)) + key)\n",
+     "new": "            head = b'k' + struct.pack('!i', len(key))\n            map_builder.append(head + key)\n"},
+    {"name": "P2 array and map writers as module-level helpers", "expect": "silent",
+     "edits": [{"file": LLSD, "old": "def _format_binary_recurse(something) -> bytes:\n",
+                "new": "def _binary_map(mapping) -> bytes:\n"
+                       "    out = [b'{' + struct.pack('!i', len(mapping))]\n"
+                       "    for key, value in mapping.items():\n"
+                       "        if isinstance(key, str):\n            key = key.encode(\"utf8\")\n"
+                       "        out.append(b'k' + struct.pack('!i', len(key)) + key)\n"
+                       "        out.append(_format_binary_recurse(value))\n"
+                       "    out.append(b'}')\n    return b''.join(out)\n\n\n"
+                       "def _format_binary_recurse(something) -> bytes:\n"},
+               {"file": LLSD,
+                "old": "        map_builder = [b'{' + struct.pack('!i', len(something))]\n"
+                       "        for key, value in something.items():\n"
+                       "            if isinstance(key, str):\n                key = key.encode(\"utf8\")\n"
+                       "            map_builder.append(b'k' + struct.pack('!i', len(key)) + key)\n"
+                       "            map_builder.append(_format_binary_recurse(value))\n"
+                       "        map_builder.append(b'}')\n        return b''.join(map_builder)\n",
+                "new": "        return _binary_map(something)\n"}]},
+    {"name": "R4 STRING override has an unescaped early return", "file": LLSD, "expect": "C12.R4",
+     "old": "    def STRING(self, v):\n",
+     "new": "    def STRING(self, v):\n        if not v:\n            return super().STRING(v)\n"},
     # ------------------------------------------------------------------ documented limits
     {"name": "X quaternion packed with two components (count still accepted by the constructor)", "file": PACK, "expect": "miss",
      "old": "MsgType.MVT_LLQuaternion: _make_llsd_tuplecoord_spec(Quaternion, needed_elems=3)",
